@@ -106,6 +106,8 @@ def line(req):
     if op == 'chain':
         from . import real_r7
         return real_r7.chain_line(req)
+    if op == 'cacheid':
+        return 'cacheid identity ' + (','.join(req[2]) or '_')
     if op == 'stream-timeout':
         return 'stream-timeout %s' % (req[1],)
     raise core.HarnessError('unknown op %r' % (op,))
@@ -181,6 +183,8 @@ def parse_model(req, ml):
     if op == 'chain':
         from . import real_r7
         return real_r7.parse_chain(ml)
+    if op == 'cacheid':
+        return ('ok', toks[0])
     return core.parse_model_answer(ml)
 
 
